@@ -96,6 +96,10 @@ def run_case(case, env, res, tmpdir, state):
     if how == "iterate" and case["source"] == "anim":
         return run_iterate(case, image, env, res, cols, rows)
     W, H = image.rendered_size
+    # the size is advertised in three places
+    if (image.rendered_width, image.rendered_height) != (W, H):
+        res.violation("C01:%s:advertised-size" % case["style"], "rendered_width x rendered_height = %s x %s, rendered_size = %s (size setting %r, source %s)" % (image.rendered_width, image.rendered_height, (W, H), image.size, case.get("src")), case)
+        return
     if W > cols or H > rows:
         res.count("skipped: does not fit terminal")
         return
@@ -113,6 +117,8 @@ def run_case(case, env, res, tmpdir, state):
         _, _, _, _, alpha, sargs = image._check_format_spec(spec)
         out = image._renderer(image._render_image, alpha, blend=False, **sargs)
     size_after = image.rendered_size
+    if (image.rendered_width, image.rendered_height) != size_after:
+        size_after = (image.rendered_width, image.rendered_height)
     r0 = case["r0f"] * (rows - H) // 1000
     c0 = case["c0f"] * (cols - W) // 1000
     errs, vt = check_rect(out, W, H, rows, cols, r0, c0, vt_personality(env.persona_name))
